@@ -250,10 +250,20 @@ class Interp(object):
     def exec_tb(self, node, gt_children, cur):
         exc = excs.make(node["exc"], "tb nid=%d" % node["nid"])
         self.count("traceback")
-        try:
-            raise exc
-        except Exception:
-            self.api("write_traceback", eliot.writeTraceback if node["nid"] % 2 else write_traceback, *self.lg(node["nid"]))
+        if node["nid"] % 3 == 1:
+            # the exc_info form, used after the except block has been left
+            import sys as _sys
+            try:
+                raise exc
+            except Exception:
+                info = _sys.exc_info()
+            self.api("write_traceback(exc_info=)", write_traceback, exc_info=info)
+            del info
+        else:
+            try:
+                raise exc
+            except Exception:
+                self.api("write_traceback", eliot.writeTraceback if node["nid"] % 2 else write_traceback, *self.lg(node["nid"]))
         f = self._fail_fields(exc, getattr(self, "extractors", None))
         f["traceback"] = ANYTEXT
         gt = {"kind": "message", "type": "eliot:traceback", "fields": f, "nid": node["nid"], "tb": True}
